@@ -89,9 +89,23 @@ def impl_batch(case):
 @guard
 def impl_machine(case):
     """arbitrary op sequences issued directly to memoising / non-memoising elicitors"""
-    from socialchoicekit.elicitation_utils import LambdaElicitor
+    from socialchoicekit.elicitation_utils import LambdaElicitor, IntegerLambdaElicitor, ValuationProfileElicitor
+    from socialchoicekit.profile_utils import ValuationProfile
     out = []
     for it in case["items"]:
+        if it.get("table") is not None:
+            # a pre-populated elicitor whose backing table is edited in place between questions: a memoising elicitor answers a repeated
+            # question with what it was told the FIRST time, and forwards nothing
+            tab = np.array(it["table"], dtype=float)
+            el = ValuationProfileElicitor(ValuationProfile.of(tab), memoize=True)
+            ans = []
+            for op in it["calls"]:
+                if op[0] == "e":
+                    ans.append(float(el.elicit(op[1], op[2])))
+                else:          # ["w", i, j, value]: the table changes under the elicitor
+                    tab[op[1], op[2]] = op[3]
+            out.append({"answers": [fr(Fraction(x)) for x in ans], "count": int(el.elicitation_count), "table": True})
+            continue
         fwd = []
         occ = {}
 
@@ -102,15 +116,17 @@ def impl_machine(case):
             fwd.append([int(a), int(j)])
             v = it["answers"].get(f"{key[0]},{key[1]},{kk}", 0.0)
             return float("nan") if v == "nan" else v
-        el = LambdaElicitor(f, memoize=it["memoize"], zero_indexed=it["zero"])
+        integer = bool(it.get("integer"))
+        el = (IntegerLambdaElicitor if integer else LambdaElicitor)(f, memoize=it["memoize"], zero_indexed=it["zero"])
+        conv = (lambda x: int(x)) if integer else (lambda x: float(x))      # integer answers are compared as exact integers (beyond 2^53 too)
         ans = []
         for op in it["calls"]:
             if op[0] == "e":
-                ans.append(float(el.elicit(op[1], op[2])))
+                ans.append(conv(el.elicit(op[1], op[2])))
             else:   # one elicit_multiple call (may contain the same pair twice)
                 qs = op[1]
                 r = el.elicit_multiple(np.array([q[0] for q in qs], dtype=int), np.array([q[1] for q in qs], dtype=int))
-                ans += [float(x) for x in r]
+                ans += [conv(x) for x in (r.tolist() if integer else r)]
         out.append({"answers": ["nan" if x != x else fr(Fraction(x)) for x in ans], "forwarded": fwd, "count": int(el.elicitation_count)})
     return {"results": out}
 
@@ -254,9 +270,23 @@ def run_machine(R, count):
     items = []
     for t in range(count):
         long_run = t % 40 == 7
+        if t % 60 == 11:
+            # pre-populated elicitor, table edited in place between questions
+            nn, mm = R.rng.randint(1, 4), R.rng.randint(1, 4)
+            table = [[float(R.rng.randint(0, 9)) for _ in range(mm)] for _ in range(nn)]
+            calls = []
+            for _ in range(R.rng.randint(3, 12)):
+                i_, j_ = R.rng.randrange(nn), R.rng.randrange(mm)
+                if R.rng.random() < 0.35:
+                    calls.append(["w", i_, j_, float(R.rng.randint(10, 19))])
+                else:
+                    calls.append(["e", i_, j_])
+            items.append({"table": table, "calls": calls, "ops": [], "memoize": True, "zero": True, "answers": {}})
+            R.count("machine:pre_populated_table_edited_in_place")
+            continue
         if long_run:
             # many distinct questions (more than any small fixed cache holds), every one of them asked again later
-            dom = R.rng.choice([12, 14, 16])
+            dom = R.rng.choice([12, 14, 16]) if t != 47 else 34      # 34*34 = 1156 distinct questions, more than a 1024-entry cache holds
             allq = [[a, j] for a in range(dom) for j in range(dom)]
             first = allq[:]
             R.rng.shuffle(first)
@@ -277,6 +307,10 @@ def run_machine(R, count):
                 for kk in range((nq + 1) if not long_run else 3):
                     if R.rng.random() < 0.7:
                         answers[f"{a + 0},{j + 0},{kk}"] = R.rng.choice([0.0, 0.0, 1.0, 2.5, -1.0, float(kk), "nan"])
+        integer = (not long_run) and t % 5 == 2
+        if integer:
+            # integer elicitor with answers beyond 2^53 (neighbouring integers that a float cannot tell apart)
+            answers = {k_: (2 ** 53 + R.rng.randint(0, 9) if R.rng.random() < 0.5 else R.rng.randint(0, 5)) for k_ in answers}
         # group the questions into single elicit calls and elicit_multiple batches (which may repeat a pair)
         calls, i = [], 0
         while i < len(ops):
@@ -287,7 +321,7 @@ def run_machine(R, count):
             else:
                 calls.append(["e", ops[i][0], ops[i][1]])
                 i += 1
-        items.append({"ops": ops, "calls": calls, "memoize": R.rng.random() < 0.6, "zero": zero, "answers": answers})
+        items.append({"ops": ops, "calls": calls, "memoize": True if long_run else R.rng.random() < 0.6, "zero": zero, "answers": answers, "integer": integer})
     res = pmap("c15", "impl_machine", [{"items": ch} for ch in chunks(items, 50)], deadline=60.0)
     flat = []
     for r in res:
@@ -303,6 +337,24 @@ def run_machine(R, count):
                               [str(len(it["ops"]))] + [str(x) for op in it["ops"] for x in op]))
     ans = lean_query(lines)
     for it, r, a in zip(items, flat, ans):
+        if it.get("table") is not None:
+            # reference: the first answer to a question is the table entry at that moment; later answers repeat it; one forward per distinct question
+            tab = [row[:] for row in it["table"]]
+            first, want = {}, []
+            for op in it["calls"]:
+                if op[0] == "w":
+                    tab[op[1]][op[2]] = op[3]
+                else:
+                    key = (op[1], op[2])
+                    first.setdefault(key, tab[op[1]][op[2]])
+                    want.append(fr(Fraction(first[key])))
+            inp = {"table": it["table"], "calls": it["calls"]}
+            if "answers" not in r or r["answers"] != want or r.get("count") != len(first):
+                R.violation("property_violation", "a memoising elicitor returns the first answer to a repeated question and forwards nothing (pre-populated elicitor, table edited in place)",
+                            ENTRY + " ValuationProfileElicitor.elicit", inp, impl_output=r, oracle={"answers": want, "count": len(first)})
+            else:
+                R.case(nontrivial_key=json.dumps(inp, sort_keys=True), sample=None)
+            continue
         fwd = r["forwarded"]
         r = dict(r, answers=[NAN_SENTINEL if x == "nan" else x for x in r["answers"]])
         inp = {"ops": it["ops"], "calls": it["calls"], "memoize": it["memoize"], "zero_indexed": it["zero"], "answers": it["answers"]}
